@@ -66,6 +66,7 @@ func BuildErrorLines(node models2.JFullIdentifier) []int {
 	var imports = node.GetImports()
 
 	var errorLines []int
+	var usedLines = make(map[int]bool)
 	for index := range imports {
 		imp := imports[index]
 		ss := strings.Split(imp.Name, ".")
@@ -80,10 +81,25 @@ func BuildErrorLines(node models2.JFullIdentifier) []int {
 
 		if !isOk {
 			errorLines = append(errorLines, imp.StartLine)
+		} else {
+			usedLines[imp.StartLine] = true
 		}
 	}
 
-	return errorLines
+	return removableLines(errorLines, usedLines)
+}
+
+// removableLines keeps one entry per line, and only lines on which no import is in use
+// (several imports can share a line).
+func removableLines(errorLines []int, usedLines map[int]bool) []int {
+	var lines []int
+	for _, line := range errorLines {
+		if usedLines[line] || (len(lines) > 0 && lines[len(lines)-1] == line) {
+			continue
+		}
+		lines = append(lines, line)
+	}
+	return lines
 }
 
 func removeImportByLines(file string, errorLines []int) {
